@@ -1,6 +1,6 @@
 """Per-property check definitions. Each function drives lib/vp.py steps and returns nothing;
 violations and coverage accumulate in ctx."""
-import json
+import json, os, time
 from vp import *
 
 TRUSTED = ["TLC 1.8 (tla2tools)", "the harness wire builder / executor (harness/src)",
@@ -113,8 +113,308 @@ def C16(ctx):
                      "end-to-end use of timestamps (both carriers, window, scope) is covered by C04/C03/C13 traces"])
 
 
-def fn_key2(ln):
-    return hash(ln)
+def req_key(ln):
+    """distinctness key for request traces: one key per case = (id, outcome class)"""
+    if '"ev":"End"' not in ln:
+        return None
+    try:
+        e = json.loads(ln)
+    except Exception:
+        return None
+    return ("end", e.get("res"), e.get("kind"), e.get("msg", "")[:60], hash(ln))
 
 
-PROPS = {"C06": C06, "C09": C09, "C10": C10, "C16": C16}
+def req_campaign(ctx, fams, rfams=(), consistent=True):
+    """whole-request campaign: TLC-generated cases (Gen_Req) and harness-proposed ones, judged by Trace_Req"""
+    for fam, bound in fams:
+        inv = "Emit\nINVARIANT ConsistentFirst\nINVARIANT SpellingKeepsCanonicalForm"
+        cases, n = tlc_gen(ctx, "Gen_Req", {"Family": fam, "Bound": bound}, "%s-%s" % (fam, bound), invariant=inv)
+        tr = hrun(ctx, cases, fam)
+        validate_req(ctx, tr, fam, cases)
+
+
+def validate_req(ctx, tr, label, cases):
+    nv0 = len(ctx.violations)
+    validate(ctx, "Trace_Req", tr, label, group="begin", chunk=1200, distinct_key=req_key)
+    # second pass for rejected cases: are they (exactly) a listed known finding?
+    # (done inside vp.validate via kf passes)
+
+
+def pipeline_mc(ctx, quick):
+    mc(ctx, "SigV4", "MC_SigV4_pairs.cfg", label="pairs")
+    if not quick:
+        mc(ctx, "SigV4", "MC_SigV4_full.cfg", label="full")
+    mc(ctx, "SigV4", "MC_SigV4_hist2.cfg" if quick else "MC_SigV4_hist.cfg", label="history")
+    for inv in ("NeverOk", "NeverProviderErr", "NeverScopeErr"):
+        mc(ctx, "SigV4", "MC_SigV4_%s.cfg" % inv, expect_violation=inv, label="reach-" + inv)
+
+
+def C13(ctx):
+    q = ctx.quick
+    pipeline_mc(ctx, q)
+    req_campaign(ctx, [("defects", 2 if q else 14)])
+    return dict(
+        rule="MC: SigV4.tla Precedence/Taxonomy over every subset of simultaneous defects (%s) x 4 carriers x provider "
+             "scripts; E: one wire request per (defect subset with <= %d defects, carrier, 3 witnesses per rule), rendered "
+             "by the reference signer; TLC asserts that Request!Q reports the minimum injected defect (ConsistentFirst) "
+             "and validates the library's trace: kind, code, status must be those of the earliest failing rule. "
+             "distinct = distinct (case, outcome)." % ("pairs" if q else "all 2^14", 2 if q else 14),
+        assumptions=["unrealisable combinations (unparsable date + expired) are reduced to their realisable part"])
+
+
+def C14(ctx):
+    q = ctx.quick
+    pipeline_mc(ctx, q)
+    mc(ctx, "SigV4", "MC_SigV4_live.cfg", label="liveness")
+    req_campaign(ctx, [("scripts", 0), ("defects", 1)])
+    return dict(
+        rule="MC: provider process with delayed readiness / delayed answer / SignatureError / foreign error scripts, "
+             "ProviderOnce, ProviderLast, CallOnlyWhenReady, CallsExact, OkNeedsAnswer, HistoryFree over histories of "
+             "validations sharing one provider, termination under weak fairness. E: 1620 provider scripts x defect "
+             "singletons and every single-defect request; the instrumented provider's PollReady/Call/PollFuture events "
+             "are SigV4's provider actions in Trace_Req (order, multiplicity, arguments, error pass-through).",
+        assumptions=["Pending counts up to 3 per phase in replay; the model explores 0..MaxPending"])
+
+
+def C01(ctx):
+    q = ctx.quick
+    pipeline_mc(ctx, q)
+    req_campaign(ctx, [("sigmut", 0), ("mut_struct", 0), ("mut_key", 0), ("mut_body", 0), ("mut_uri", 0), ("mut_hdr", 0)]
+                 + ([] if q else [("base", 1)]))
+    return dict(
+        rule="MC: OkSound on SigV4.tla. E: every one of the 64 hex digits flipped, upper-casing, truncation, extension, "
+             "empty signature on both carriers; valid base requests; single-component mutations of validly signed "
+             "requests applied after signing. TLC decides acceptance by term equality: the presented signature is good "
+             "iff it is the harness-evaluated HMAC of exactly the specification's string-to-sign for the request as "
+             "received (oracle table wired in Trace_Req!SigGood).",
+        assumptions=["SHA-256/HMAC-SHA256 collision-freedom (Dolev-Yao reading of rule 16)"])
+
+
+def C02(ctx):
+    q = ctx.quick
+    pipeline_mc(ctx, q)
+    req_campaign(ctx, [("spell", 0), ("base", 0 if q else 1)])
+    return dict(
+        rule="MC: Complete on SigV4.tla; the spelling law (an admissible respelling leaves canonical request, string-to-sign "
+             "prefix, payload, access key and token unchanged) is checked by TLC on Request!Q for every generated case. "
+             "E: 3 rich logical requests x 12 spelling recipes (hex case, needless escapes in path and query, %20 vs +, "
+             "parameter order, '&&', header-name case, redundant spaces, header arrival order, HTTP version, all combined) "
+             "x both carriers x server clock at -15 min / 0 / +15 min, and a grid of valid requests (methods, paths, "
+             "queries with prefix-related and repeated names, header sets, bodies, token, S3 mode) signed by the "
+             "reference signer (Wire.tla): each must be accepted.",
+        assumptions=["literal '+' in a path is the known finding D7 (reported by C09; such paths are generated only there)"])
+
+
+def C03(ctx):
+    q = ctx.quick
+    pipeline_mc(ctx, q)
+    req_campaign(ctx, [("scope", 0), ("midnight", 0)])
+    return dict(
+        rule="E: 31 credential scopes (arities 0..7 parts, region/service prefix, suffix, case variant, empty, extra char, "
+             "non-ASCII, swapped, terminator and date near-misses) x 3 server configurations (incl. region a prefix of the "
+             "service) x both carriers, each SIGNED WITH THE KEY OF THE SCOPE IT NAMES, and 11 timestamps around midnight "
+             "UTC / with offsets that move the UTC date. Trace_Req requires 400 for arity, 403 for any other mismatch, and "
+             "that the provider is asked for exactly (access key, token, UTC date, server region, server service).",
+        assumptions=[])
+
+
+def C04(ctx):
+    q = ctx.quick
+    pipeline_mc(ctx, q)
+    req_campaign(ctx, [("window", 0 if q else 1)])
+    return dict(
+        rule="E: request instants at every whole-second offset %s from the server time plus 1 ns and 0.5 s either side of "
+             "both bounds, rendered in 5 textual forms (basic Z, extended Z, +05:30, -0245, 9-digit fraction), both "
+             "carriers, %s; credential date = UTC date of the instant so that only the window can refuse. Trace_Req: accept "
+             "iff now-900s <= t <= now+900s on instant triples (Civil!Fresh), else expired / not-yet-current 403 with "
+             "zero provider calls." % ("in +-[880, 920] s" if q else "in [-1200, 1200] s",
+                                       "one server instant" if q else "6 server instants (leap day, year end, .5 s)"),
+        assumptions=[])
+
+
+def C05(ctx):
+    q = ctx.quick
+    pipeline_mc(ctx, q)
+    req_campaign(ctx, [("reqs", 0 if q else 2)])
+    return dict(
+        rule="E: every combination of always-required {content-type, x-req}, conditionally required {etag, x-opt} and "
+             "prefix {x-amz, x-a} sets (64) in lower / UPPER / mIxEd case through the slice, vec(new) and vec(add_*) "
+             "implementations, request header sets with several prefix-matching names, and signed lists that include all, "
+             "none or all-but-one%s of the request's headers; every request is correctly signed over what it lists, so "
+             "only the requirement check can refuse it." % ("" if q else " (thorough: every subset)"),
+        assumptions=["declared names are ASCII"])
+
+
+def C11(ctx):
+    q = ctx.quick
+    mc(ctx, "MC_Headers", law_cfg("HvalLaws", "hval", 4 if q else 6), label="HvalLaws")
+    fn_campaign(ctx, [("hval", 4 if q else 6)], [("hval", 3000 if q else 100000)])
+    req_campaign(ctx, [("mut_struct", 0), ("mut_hdr", 0), ("spell", 0)] + ([] if q else [("base", 1)]))
+    return dict(
+        rule="MC: NormValue idempotent, no leading/trailing/double space, non-space bytes preserved in order. E (function): "
+             "every value over {SP, a, b, ',', HTAB, 0xE9} up to length %d through normalize_header_value. E (end to end): "
+             "every byte of every header value of a signed request changed in turn; swapping, dropping, duplicating values "
+             "of a signed header; adding, removing, changing unsigned headers; respacing; header-name case; arrival order "
+             "across names. TLC decides from the wire which edits leave the canonical request unchanged (accept) and "
+             "which do not (refuse)." % (4 if q else 6),
+        assumptions=["HTAB is data (the statement speaks of spaces)"])
+
+
+def C12(ctx):
+    q = ctx.quick
+    pipeline_mc(ctx, q)
+    req_campaign(ctx, [("fold", 0), ("fold", 1)] if q else [("fold", 1), ("fold", 2)])
+    return dict(
+        rule="E: URL parameter lists x body parameter lists over names {a, b} x values {1, 2, empty} (incl. the same name in "
+             "both) x 13 content types (exact, charset utf-8/UTF8/unicode-1-1-utf-8/foobar/latin1/empty, extra params, "
+             "text/plain, json, absent, case variant, multipart) x folding on/off x bodies (valid, invalid UTF-8, bad "
+             "escape) x a post-signing body byte flip, both carriers, signed by the reference signer over the merged "
+             "query and the empty-body hash when folding applies. Trace_Req checks accept/refuse, InvalidBodyEncoding / "
+             "MalformedQueryString, and that the returned URI carries exactly the merged parameters with an empty body.",
+        assumptions=["media type in another letter case and known non-UTF-8 charsets: don't-care"])
+
+
+def C15(ctx):
+    q = ctx.quick
+    pipeline_mc(ctx, q)
+    req_campaign(ctx, [("passthru", 0), ("fold", 0)] + ([] if q else [("base", 1)]))
+    return dict(
+        rule="E: 5 methods (incl. extension methods) x 5 HTTP versions x 5 header multisets (repeats, empty and non-UTF-8 "
+             "values) x 3 body types ((), Vec<u8>, Bytes) x bodies x both carriers, with a distinct principal and session "
+             "datum per case; folded requests from the C12 family. Trace_Req!RetOk compares method, version, header list, "
+             "body and URI byte for byte (folded: empty body, canonical-equal path, exactly the merged parameters) and the "
+             "principal / session data with what the provider supplied.",
+        assumptions=["whether X-Amz-Signature stays in a folded returned URI is a don't-care"])
+
+
+def C17(ctx):
+    q = ctx.quick
+    pipeline_mc(ctx, q)
+    fn_campaign(ctx, [("leakfn", 0)], [])
+    req_campaign(ctx, [("leak_defects", 1 if q else 2), ("leak_scripts", 0), ("leak_sigmut", 0)])
+    return dict(
+        rule="Every validation in the leak families runs with a capturing `log` logger at Trace level; the harness searches "
+             "each log record, the Display and Debug text of the returned error, and the Debug text of the canonical "
+             "request, extracted parameters and authenticator for the provider's secret, 'AWS4'+secret, kDate, kRegion, "
+             "kService, kSigning (for the request's and the server's date) and the signature the server computes, each "
+             "raw, hex (both cases), base64 (std/url, with and without padding) and as a Debug byte list, and records the "
+             "set of secrets found as the event's taints. Trace_Req!NoLeak: no key material anywhere; the correct "
+             "signature of a refused request only in records below debug level. Cases: every single defect (and pairs in "
+             "thorough) on both carriers, provider errors, all 68 signature mutations; Debug/Display of all key types, "
+             "provider request/response and authenticator response for 8 secrets (Trace_Fn).",
+        assumptions=["secrets have >= 20 bytes of entropy, so accidental substring hits are negligible"])
+
+
+def C08(ctx):
+    q = ctx.quick
+    fn_campaign(ctx, [("foldsize", 0), ("errtable", 0), ("builders", 0), ("key_caps", 0), ("vreqs", 2 if q else 3),
+                      ("ts_affix", 0), ("path_trunc", 0)],
+                [("ts", 3000 if q else 100000), ("key", 2000 if q else 50000), ("path", 3000 if q else 100000),
+                 ("query", 3000 if q else 100000), ("hval", 2000 if q else 50000)])
+    req_campaign(ctx, [("charsets", 0), ("degenerate", 0), ("defects", 1 if q else 2)])
+    cases, n = hgen(ctx, "reqfuzz", 3000 if q else 200000)
+    tr = hrun(ctx, cases, "R:reqfuzz")
+    validate_req(ctx, tr, "R:reqfuzz", cases)
+    return dict(
+        rule="A panic (caught at the harness boundary and logged as data) or a missing End event matches no action of any "
+             "trace specification. E: form bodies whose folded URI is 65530..65537 bytes, 70 000 and 1 MiB; every charset "
+             "label known to the encoding crate and unknown ones x 4 body classes; secrets x capacities; every "
+             "SignatureError variant through error_code/http_status/Display/Debug/source/From; builders with required "
+             "fields missing; requirement-container operation sequences; degenerate URIs and Authorization headers; "
+             "truncated escapes; timestamp affixes. R: seeded byte-level requests biased towards the tokens of "
+             "fuzz/dict.txt, random timestamps (incl. non-ASCII digits), secrets, paths, queries, header values.",
+        assumptions=["operations documented as panicking on malformed escapes (unescape_uri_encoding) and "
+                     "get_string_to_sign/get_signing_key without prevalidate are excepted, as the property states"])
+
+
+def det_events_from_trace(tr, who):
+    """(id, proj) of every case of a validated request trace, as Trace_Det events"""
+    out = []
+    cur = None
+    for ln in open(tr):
+        if '"ev":"Begin"' in ln:
+            cur = json.loads(ln)["id"]
+        elif '"ev":"End"' in ln and cur is not None:
+            e = json.loads(ln)
+            out.append({"op": "det", "id": cur, "who": who, "res": e.get("res"), "proj": e.get("proj", "")})
+            cur = None
+    return out
+
+
+def C18(ctx):
+    import hashlib
+    q = ctx.quick
+    mc(ctx, "MC_Reentrancy", "MC_Reentrancy.cfg", label="reentrancy")
+    mc(ctx, "MC_Reentrancy", "MC_Reentrancy_neg.cfg", expect_violation="Deterministic", label="neg-unsorted-render")
+    mc(ctx, "SigV4", "MC_SigV4_hist2.cfg" if q else "MC_SigV4_hist.cfg", label="history")
+    # corpus: valid requests of many shapes, every single defect, repeated inputs, folded forms
+    corpus = os.path.join(ctx.sub("corpus"), "cases.ndjson")
+    with open(corpus, "w") as w:
+        for fam, bound in [("base", 0 if q else 1), ("defects", 1), ("dup", 0), ("fold", 1), ("reqs", 0)]:
+            cases, n = tlc_gen(ctx, "Gen_Req", {"Family": fam, "Bound": bound}, "%s-%s" % (fam, bound))
+            lines = open(cases).read().splitlines()
+            if q and len(lines) > 400:
+                lines = lines[:: len(lines) // 400 + 1]
+            w.write("\n".join(lines) + "\n")
+    ncases = sum(1 for _ in open(corpus))
+    tr = hrun(ctx, corpus, "reference")
+    validate_req(ctx, tr, "reference", corpus)             # "same" also means "right"
+    obs = det_events_from_trace(tr, "ref")
+    d = os.path.dirname(corpus)
+    runs = []
+    plans = [(2, 3), (8, 3)] if q else [(2, 20), (4, 20), (8, 20), (16, 20)]
+    nproc = 4 if q else 32
+    for i, (nt, rounds) in enumerate(plans):
+        runs.append((nt, rounds, ctx.seed + i))
+    for k in range(nproc):
+        runs.append((1, 1, ctx.seed + 100 + k))
+    t0 = time.time()
+    for j, (nt, rounds, seed) in enumerate(runs):
+        out = os.path.join(d, "det-%d.ndjson" % j)
+        rc, o = sh([CONFORM, "threads", corpus, out, str(nt), str(rounds), str(seed)], timeout=3600,
+                   env={"RUST_BACKTRACE": "0"})
+        if rc != 0:
+            # abnormal termination of a concurrent run is a finding, not a tool error
+            ctx.violation([{"run": [nt, rounds, seed]}], {"module": "Trace_Det", "abnormal_exit": rc, "tail": o[-400:]})
+            continue
+        for ln in open(out):
+            obs.append(json.loads(ln))
+        os.remove(out)
+    log("  det %d fresh processes (threads x rounds: %s, %d single-thread processes)  %d observations  %.1fs" %
+        (len(runs), plans, nproc, len(obs), time.time() - t0))
+    obs.sort(key=lambda e: (json.dumps(e["id"]), 0 if e["who"] == "ref" else 1))
+    dt = os.path.join(d, "det.ndjson")
+    with open(dt, "w") as w:
+        for e in obs:
+            w.write(json.dumps(e) + "\n")
+    validate(ctx, "Trace_Det", dt, "determinism", group="key", chunk=20000,
+             distinct_key=lambda ln: hashlib.md5(ln.encode()).hexdigest()[:12] if '"who": "ref"' in ln else None)
+    ctx.exhaustive = False
+    return dict(
+        rule="MC: Reentrancy.tla (3 threads x 2 validations x 4 request kinds x 3 hash seeds over the lazily initialised "
+             "globals with one-time initialisation): no deadlock, termination under weak fairness, outcome = Pure(request) "
+             "and seed-independent rendering, with a negative control (rendering in map iteration order must violate it); "
+             "HistoryFree on SigV4.tla. Implementation: a corpus of %d cases (valid requests, every single defect, repeated "
+             "inputs, folded forms, requirement sets) is validated once by Trace_Req (reference), then re-validated in %d "
+             "fresh processes: %s threads x rounds released by a barrier onto shuffled orders (first touch of the lazy "
+             "statics is raced) and %d single-thread processes (different hash seeds). Trace_Det requires every "
+             "observation's outcome digest (kind/code/status, returned request, principal, provider interactions; not "
+             "message text) to equal the reference's." % (ncases, len(runs), plans, nproc),
+        assumptions=["interleavings are sampled, not controlled: the shared state is std::sync::Once inside lazy_static",
+                     "which header a prefix-requirement message names depends on map order; messages are not compared"])
+
+
+def C19(ctx):
+    q = ctx.quick
+    req_campaign(ctx, [("dup", 0)])
+    return dict(
+        rule="E: 33 requests in which one authentication input is repeated with differing values, in both orders, built "
+             "so that exactly one selection makes the signature valid: Authorization header x2 (AWS4 + Basic / AWS4 + "
+             "AWS4), Credential / SignedHeaders / Signature repeated inside it, each X-Amz-* query parameter repeated, "
+             "X-Amz-Date x2, Date + X-Amz-Date in both arrival orders, token header x2 / token parameter x2, both "
+             "carriers at once. Trace_Req reads the selection rules from Request!Q and checks acceptance and the access "
+             "key / token the provider sees.",
+        assumptions=[])
+
+
+PROPS = {"C01": C01, "C02": C02, "C03": C03, "C04": C04, "C05": C05, "C08": C08, "C11": C11, "C12": C12, "C15": C15, "C17": C17, "C18": C18, "C19": C19, "C06": C06, "C09": C09, "C10": C10, "C13": C13, "C14": C14, "C16": C16}
